@@ -4,6 +4,7 @@ import (
 	"errors"
 	"fmt"
 	"go/ast"
+	"go/token"
 	"go/types"
 	"path/filepath"
 	"sort"
@@ -25,8 +26,10 @@ type Registry struct {
 }
 
 // New loads the source package info and returns a new instance of
-// Registry.
-func New(srcDir, moqPkg string) (*Registry, error) {
+// Registry. Import aliases found in the files named by replaced (typically the
+// file the output is going to overwrite) are not harvested: what is about to
+// be replaced must not shape its replacement.
+func New(srcDir, moqPkg string, replaced ...string) (*Registry, error) {
 	srcPkg, err := pkgInfoFromPath(
 		srcDir, packages.NeedName|packages.NeedSyntax|packages.NeedTypes,
 	)
@@ -38,7 +41,7 @@ func New(srcDir, moqPkg string) (*Registry, error) {
 		srcPkgName:  srcPkg.Name,
 		srcPkgTypes: srcPkg.Types,
 		moqPkgPath:  findPkgPath(moqPkg, srcPkg.PkgPath),
-		aliases:     parseImportsAliases(srcPkg.Syntax),
+		aliases:     parseImportsAliases(srcPkg.Syntax, srcPkg.Fset, replaced),
 		imports:     make(map[string]*Package),
 	}, nil
 }
@@ -198,6 +201,17 @@ func pkgInDir(pkgName, dir string) bool {
 	return currentPkg.Name == pkgName || currentPkg.Name+"_test" == pkgName
 }
 
+// canonicalPath makes two spellings of one file comparable.
+func canonicalPath(name string) string {
+	if abs, err := filepath.Abs(name); err == nil {
+		name = abs
+	}
+	if resolved, err := filepath.EvalSymlinks(name); err == nil {
+		name = resolved
+	}
+	return filepath.Clean(name)
+}
+
 // isMoqGenerated reports whether the file starts with moq's generated-code
 // marker.
 func isMoqGenerated(file *ast.File) bool {
@@ -214,9 +228,19 @@ func isMoqGenerated(file *ast.File) bool {
 	return false
 }
 
-func parseImportsAliases(syntaxTree []*ast.File) map[string]string {
+func parseImportsAliases(syntaxTree []*ast.File, fset *token.FileSet, replaced []string) map[string]string {
+	skip := make(map[string]bool, len(replaced))
+	for _, name := range replaced {
+		if name != "" {
+			skip[canonicalPath(name)] = true
+		}
+	}
+
 	aliases := make(map[string]string)
 	for _, syntax := range syntaxTree {
+		if fset != nil && len(skip) > 0 && skip[canonicalPath(fset.Position(syntax.Package).Filename)] {
+			continue
+		}
 		// Aliases in a file moq generated earlier are moq's own choices, not
 		// the user's: harvesting them would make the output depend on
 		// whether a previous output is still in place.
